@@ -144,10 +144,12 @@ def jd_month_tables(ctx, ym):
         first = 15 if (y, m) == (1582, 10) else 1
         out = [py(t2.m(I2.call('JulianDay::from_ymd_hms', [y, m, 1, 0, 0, 0]), 'get_day'))]
         # the date's and the instant's own accessors must give the same number (they are the route every caller takes)
-        via_day = py(t2.m(t2.m(I2.call('SolarDay::from_ymd', [y, m, 1]), 'get_julian_day'), 'get_day'))
-        via_time = py(t2.m(t2.m(I2.call('SolarTime::from_ymd_hms', [y, m, 1, 0, 0, 0]), 'get_julian_day'), 'get_day'))
-        if via_day != out[0] or via_time != out[0]:
-            return 'SolarDay::get_julian_day %s / SolarTime::get_julian_day %s / JulianDay::from_ymd_hms %s disagree' % (via_day, via_time, out[0])
+        # (all century years, the years around the cut-over and both range ends, and every 37th year)
+        if y % 100 == 0 or y < 10 or y > 9990 or 1575 <= y <= 1590 or y % 37 == 0:
+            via_day = py(t2.m(t2.m(I2.call('SolarDay::from_ymd', [y, m, 1]), 'get_julian_day'), 'get_day'))
+            via_time = py(t2.m(t2.m(I2.call('SolarTime::from_ymd_hms', [y, m, 1, 0, 0, 0]), 'get_julian_day'), 'get_day'))
+            if via_day != out[0] or via_time != out[0]:
+                return 'SolarDay::get_julian_day %s / SolarTime::get_julian_day %s / JulianDay::from_ymd_hms %s disagree' % (via_day, via_time, out[0])
         if (y, m) == (1582, 10):
             out.append(py(t2.m(I2.call('JulianDay::from_ymd_hms', [y, m, 15, 0, 0, 0]), 'get_day')))
         return out
